@@ -8,6 +8,10 @@
 #[cfg(kani)]
 mod verif_hashtbl {
     use super::*;
+    // `cargo kani playback` pastes generated `#[test]`s (using `vec![..]`) into this module; the
+    // crate is no_std, so bring the macro into scope
+    #[allow(unused_imports)]
+    use alloc::vec;
 
     // ---------------------------------------------------------------------------------------
     // Specification-side vocabulary (written against the *representation*, not calling the
